@@ -579,6 +579,8 @@ type Exec struct {
 	// Unsound collects the places where the abstraction had to ignore an effect (store through
 	// an unknown pointer, defer, go, …); a rule that needs exactness refuses when non-empty.
 	Unsound []string
+	// Assumed lists preconditions the evaluation took for granted (a caller's buffer is long enough).
+	Assumed []string
 }
 
 func NewExec() *Exec {
@@ -625,6 +627,37 @@ func ArgBits(name string, w, lim int) AVal {
 	}
 	return AVal{K: AInt, Bits: out}
 }
+
+// XorVec is the bitwise XOR of two vectors of the same width.
+func XorVec(a, b BitVec) BitVec {
+	if len(a) != len(b) {
+		return nil
+	}
+	out := make(BitVec, len(a))
+	for i := range a {
+		out[i] = xorBit(a[i], b[i])
+	}
+	return out
+}
+
+// SameVec reports whether two vectors are identical bit for bit (Mix is never identical).
+func SameVec(a, b BitVec) bool {
+	if len(a) != len(b) || a == nil {
+		return false
+	}
+	for i := range a {
+		if a[i] != b[i] || a[i].Kind == BMix {
+			return false
+		}
+	}
+	return true
+}
+
+// NonNilArg marks an argument (slice, pointer) as known not to be nil.
+func NonNilArg(v AVal) AVal { v.NonNil = true; return v }
+
+// NilArg is the nil slice / pointer.
+func NilArg() AVal { return AVal{K: ANil} }
 
 // ConstBits is the w-bit constant val.
 func ConstBits(val uint64, w int) BitVec { return constBits(val, w) }
@@ -2185,6 +2218,10 @@ func (ex *Exec) builtin(s *astate, fr *aframe, x *ssa.Call, name string, args []
 					if d.Len < n {
 						n = d.Len
 					}
+				case src.K == ASlice && src.Len >= 0 && d.Len < 0 && !s.mem.isFresh(d.Path):
+					// a destination handed in by the caller: taken to be long enough
+					n = src.Len
+					ex.Assumed = append(ex.Assumed, fmt.Sprintf("len(%s) >= %d", argName(d), d.Lo+n))
 				case src.K == AStr && src.Len >= 0 && d.Len >= 0:
 					n = src.Len
 					if d.Len < n {
